@@ -33,8 +33,23 @@ Definition fam5 (i : Z) (y : Z) : Z := y / 2 + i * 16777216.
 Definition start3 (l : list Z) : list Z :=
   match l with [] => [-1000] | [x] => if Z.eqb x (-7777) then [] else l | _ => l end.
 
+(* family 6: one pipeline value called twice on the same argument; the stages are v -> 3v + i*setting (setting 1 in the
+   first call, 2 in the second) and count their applications: values are pairs (v, applications so far) *)
+Definition fam6 (setting : Z) (i : Z) (p : Z * Z) : Z * Z := (3 * fst p + i * setting, snd p + 1).
+Definition two_calls (r1 r2 : Z * Z) : list Z := [fst r1; fst r2; snd r1 + snd r2].
+(* family 7: one float64 pipeline called on +0 and -0 (input [0]) or on -0 and +0 (input [1]); stage 1 yields +1 / -1 by
+   the sign bit (the model's argument is the sign, 1 or -1), the other stages are those of family 5 *)
+Definition fam7 (i : Z) (y : Z) : Z := if Z.eqb i 1 then y * 16777216 else fam5 i y.
+Definition signs7 (l : list Z) : option (Z * Z) := match l with [0] => Some (1, -1) | [1] => Some (-1, 1) | _ => None end.
+
 Definition required (c : case) : option (list Z) :=
   match fam c with
+  | 6%N => match input c with
+           | [x] => Some (two_calls (spec_pipe (arity c) (fam6 1) (x, 0)) (spec_pipe (arity c) (fam6 2) (x, 0)))
+           | _ => None end
+  | 7%N => match signs7 (input c) with
+           | Some (s1, s2) => Some [spec_pipe (arity c) fam7 s1; spec_pipe (arity c) fam7 s2]
+           | None => None end
   | 5%N => match input c with [q] => Some [spec_pipe (arity c) fam5 (q * 4194304)] | _ => None end
   | 2%N => Some (spec_pipe (arity c) fam2 (input c))
   | 3%N => Some (spec_pipe (arity c) fam2 (start3 (input c)))
